@@ -619,13 +619,20 @@ class Exec:
                     raise NotEncoded(f'promoted constant {tok}: {len(rets)} feasible evaluations')
                 v = rets[0].val
                 # a promoted is a reference into its own frame: copy the referent into the heap of the memo
-                if isinstance(v, Ref):
-                    v = ('ref', sub.read(rets[0].st, v.fid, v.place))
+                def lift(x, n=0):
+                    # (a promoted may be a reference to a reference: `&&CONST`)
+                    if isinstance(x, Ref) and n < 4:
+                        return ('ref', lift(sub.read(rets[0].st, x.fid, x.place), n + 1))
+                    return x
+                v = lift(v)
                 self.memo[key] = v
             v = self.memo[key]
-            if isinstance(v, tuple) and v[0] == 'ref':
-                return self.new_cell(st, v[1], 'promoted')
-            return v
+
+            def mat(x):
+                if isinstance(x, tuple) and len(x) == 2 and x[0] == 'ref':
+                    return self.new_cell(st, mat(x[1]), 'promoted')
+                return x
+            return mat(v)
         # named constant of this crate
         last = tok.split('::')[-1]
         if re.match(r'^[A-Z][A-Z0-9_]*$', last):
@@ -889,6 +896,8 @@ class Exec:
                 return v
             if kind.startswith('Transmute') and isinstance(v, (Opaque, Ref)) and ('*const' in rv[2] or '*mut' in rv[2]):
                 return Opaque(rv[2], v.what, v.id, v.over) if isinstance(v, Opaque) else v     # pointer-to-pointer transmute
+            if kind.startswith('Transmute') and isinstance(v, Agg) and v.name == 'NonNull' and len(v.fields) == 1 and isinstance(v.fields[0], Ref) and ('*const' in rv[2] or '*mut' in rv[2]):
+                return v.fields[0]          # NonNull<T> -> *const T: the pointer itself (how MIR dereferences a Box)
             raise NotEncoded(f'cast {kind}')
         if k == 'agg':
             return self.aggregate(st, fid, rv, dest_ty)
@@ -1380,6 +1389,8 @@ class Exec:
         plain = self._strip_generics(callee)
         # 1. exact (trimmed) name
         cands = [f for f in prog.funcs_named(callee)] or [f for f in prog.funcs_named(plain)]
+        if len(cands) > 1 and len({(f.name, tuple(f.args), re.sub(r'\s*//[^\n]*', '', f.text).strip()) for f in cands}) == 1:
+            cands = cands[:1]       # `const fn` / tuple-variant constructors are dumped twice (runtime MIR and MIR for CTFE) with identical bodies
         if len(cands) == 1:
             return (cands[0], None) if cands[0].blocks else None
         if len(cands) > 1:
